@@ -240,6 +240,9 @@ func (this *Dataset) BatchInsert(ctx context.Context, items []*pb.BatchItem) (ma
 	if len(items) > maxBatchRequestSize {
 		return nil, BatchRequestTooLargerErr
 	}
+	if err := validateBatchItemIds(items); err != nil {
+		return nil, err
+	}
 
 	errors := make(map[uuid.UUID]error)
 	var checkedItems []*pb.BatchItem
@@ -275,6 +278,9 @@ func (this *Dataset) PartitionBatchInsert(ctx context.Context, partitionId uuid.
 	if err != nil {
 		return nil, err
 	}
+	if err := validateBatchItemIds(items); err != nil {
+		return nil, err
+	}
 
 	return partition.batchInsert(ctx, items)
 }
@@ -282,6 +288,9 @@ func (this *Dataset) PartitionBatchInsert(ctx context.Context, partitionId uuid.
 func (this *Dataset) BatchUpdate(ctx context.Context, items []*pb.BatchItem) (map[uuid.UUID]error, error) {
 	if len(items) > maxBatchRequestSize {
 		return nil, BatchRequestTooLargerErr
+	}
+	if err := validateBatchItemIds(items); err != nil {
+		return nil, err
 	}
 
 	errors := make(map[uuid.UUID]error)
@@ -318,6 +327,9 @@ func (this *Dataset) PartitionBatchUpdate(ctx context.Context, partitionId uuid.
 	if err != nil {
 		return nil, err
 	}
+	if err := validateBatchItemIds(items); err != nil {
+		return nil, err
+	}
 
 	return partition.batchUpdate(ctx, items)
 }
@@ -325,6 +337,9 @@ func (this *Dataset) PartitionBatchUpdate(ctx context.Context, partitionId uuid.
 func (this *Dataset) BatchRemove(ctx context.Context, items []*pb.BatchItem) (map[uuid.UUID]error, error) {
 	if len(items) > maxBatchRequestSize {
 		return nil, BatchRequestTooLargerErr
+	}
+	if err := validateBatchItemIds(items); err != nil {
+		return nil, err
 	}
 
 	return this.partitionsBatchRequest(
@@ -341,6 +356,9 @@ func (this *Dataset) BatchRemove(ctx context.Context, items []*pb.BatchItem) (ma
 func (this *Dataset) PartitionBatchRemove(ctx context.Context, partitionId uuid.UUID, items []*pb.BatchItem) (map[uuid.UUID]error, error) {
 	partition, err := this.getPartition(partitionId)
 	if err != nil {
+		return nil, err
+	}
+	if err := validateBatchItemIds(items); err != nil {
 		return nil, err
 	}
 
@@ -418,6 +436,17 @@ func (this *Dataset) SearchPartitions(ctx context.Context, partitionIds []uuid.U
 
 	sort.Sort(result)
 	return result[:math.MinInt(int(k), len(result))], nil
+}
+
+// Batch items are keyed by their id from here on (routing, error maps, the
+// replicated change): reject the request if any id is not a valid UUID.
+func validateBatchItemIds(items []*pb.BatchItem) error {
+	for _, item := range items {
+		if _, err := uuid.FromBytes(item.GetId()); err != nil {
+			return err
+		}
+	}
+	return nil
 }
 
 func (this *Dataset) getPartition(id uuid.UUID) (*partition, error) {
